@@ -255,7 +255,7 @@ _guard = _G()
 def macro_entry(v):
     ci = v.called_in
     return (v.relpath_included_file, v.macro_name, v.line, v.column, None if ci is None else tuple(ci), v.return_addr,
-            tuple(sorted((str(k), str(x)) for k, x in dict(v.parameter_mapping).items())))
+            tuple(sorted((str(k), repr(x)) for k, x in dict(v.parameter_mapping).items())))
 
 
 def expected_rewrite(before, mapping):
